@@ -297,6 +297,34 @@ pub fn oracle(tier: &str, seed: u64) -> (u64, Vec<Finding>) {
                 }
             }
         }
+        // (f) panic mode with several targets: ONE out-of-range target anywhere in the list (first, last or in the middle, after or before
+        //     in-range ones, in any order) makes the call panic
+        if n >= 2 {
+            let mut ts: Vec<f64> = (0..1 + r.below(4)).map(|_| { let j = r.below(n as u64 - 1) as usize; x[j] + (x[j + 1] - x[j]) * r.unit() }).collect();
+            let bad = if r.coin(0.5) { above_target(&mut r, &x) } else { below_target(&mut r, &x) };
+            if bad > x[n - 1] || bad < x[0] {
+                let pos = r.below(ts.len() as u64 + 1) as usize; ts.insert(pos, bad);
+                tried += 1;
+                if let Ok(v) = orun(checked, &x, &y, &ts, Mode::Panic) {
+                    out.push(Finding { class: "multi-target:panic-mode-returns-value".into(), what: format!("target {:e} (position {} of {}) is outside [{:e}, {:e}] but panic mode returned {:?}", bad, pos, ts.len(), x[0], x[n - 1], v), input: describe(checked, &x, &y, &ts, Mode::Panic) });
+                }
+            }
+        }
+        // (g) the checked variant rejects abscissae that are out of order by ANY amount: two neighbouring knots one ulp apart exchanged, or a
+        //     whole grid at a tiny scale (1e-18) with two knots exchanged
+        if n >= 3 {
+            let mut xt = x.clone();
+            let i = 1 + r.below(n as u64 - 2) as usize;
+            if r.coin(0.5) { xt[i] = f64::from_bits(xt[i - 1].to_bits().wrapping_add(if xt[i - 1] >= 0.0 { 1 } else { u64::MAX })); if xt[i] > xt[i - 1] && xt[i] < xt[(i + 1).min(n - 1)] { xt.swap(i - 1, i); } else { xt = x.clone(); xt.swap(i - 1, i); for v in xt.iter_mut() { *v *= 1e-18; } } }
+            else { xt.swap(i - 1, i); for v in xt.iter_mut() { *v *= 1e-18; } }
+            if (0..n - 1).any(|j| xt[j + 1] < xt[j]) {
+                tried += 1;
+                let t = [xt[0]];
+                if let Ok(v) = orun(true, &xt, &y, &t, Mode::Extrap) {
+                    out.push(Finding { class: "checked:unsorted-accepted".into(), what: format!("abscissae with a descent (possibly of one ulp, or at a tiny scale) were accepted, returned {:?}", v), input: format!("interpolate checked x={} y={} tgt={}", jf(&xt), jf(&y), jf(&t)) });
+                }
+            }
+        }
         // (d) rejection: unsorted abscissae (checked variant), mismatched lengths (both variants)
         if n >= 2 {
             let mut xu = x.clone();
